@@ -245,6 +245,26 @@ def emit_tables(ir):
     return "\n".join(out) + "\n", meta
 
 
+def emit_totality(ir, meta):
+    """gen/Totality.v: for every compute module, the boolean 'every signature has an entry of a well-formed shape'."""
+    ALL = {"az": "all_az", "lg": "all_lg", "tm": "all_tm", "eo": "all_eorder"}
+    out = ["(* GENERATED: totality of every dispatch table over the full signature lattice *)",
+           "From Coq Require Import List Bool.", "From VP Require Import Lib ULib Compute Tables.", "Import ListNotations.", ""]
+    names = []
+    for t in sorted(meta):
+        m = meta[t]
+        tags = [f"s{i}" for i in range(len(m["kinds"]))]
+        args = " ".join(tags) + " " + " ".join(["tt"] * (m["nscalars"] + m["ncoords"]))
+        body = f"shape_ok (T_{t} (L:=ULib) {args})"
+        for v, k in reversed(list(zip(tags, m["kinds"]))):
+            body = f"forallb (fun {v} => {body}) {ALL[k]}"
+        out.append(f"Definition total_{t} : bool := {body}.")
+        names.append(f"total_{t}")
+    out.append("Definition all_tables_total : bool := " + " && ".join(names) + ".")
+    out.append(f"Definition number_of_tables : nat := {len(names)}.")
+    return "\n".join(out) + "\n"
+
+
 def emit_unfold(ir):
     names = list(ir["order"]) + ["T_" + t for t in sorted(ir["tables"])]
     prj = ["prj2_0", "prj2_1", "prj3_0", "prj3_1", "prj3_2", "prj4_0", "prj4_1", "prj4_2", "prj4_3", "fst", "snd"]
